@@ -20,7 +20,7 @@ import (
 	"verifharness/simnet"
 )
 
-var cancelPoints = []string{"", "manager.sem.acquired", "conn.newstream.afterCreate", "conn.newstream.afterMeta", "manager.newstream.beforeSet", "conn.invoke.afterCreate", "conn.invoke.afterMeta", "conn.invoke.afterInvoke", "conn.invoke.afterMessage", "stream.rawwrite.locked", "stream.msgsend.locked", "stream.closesend.emit"}
+var cancelPoints = []string{"", "stream.msgrecv.held", "manager.sem.acquired", "conn.newstream.afterCreate", "conn.newstream.afterMeta", "manager.newstream.beforeSet", "conn.invoke.afterCreate", "conn.invoke.afterMeta", "conn.invoke.afterInvoke", "conn.invoke.afterMessage", "stream.rawwrite.locked", "stream.msgsend.locked", "stream.closesend.emit"}
 
 func actsString(a []prog.Act) string {
 	var b strings.Builder
@@ -103,6 +103,20 @@ func scenario(id string, seed uint64) runner.Result {
 			scripts = append(scripts, prog.GenClean(r, uint64(i+1), cfg))
 		} else {
 			scripts = append(scripts, prog.GenAbort(r, uint64(i+1), cfg, payload.Pick(r, prog.AbortKinds)))
+		}
+	}
+	// a handler that half-closes by itself before it returns (with or without an error, drained or not)
+	for _, sc := range scripts {
+		if !sc.Unary && (r.Intn(4) == 0 || (sc.Ret != nil && r.Intn(2) == 0)) {
+			p := r.Intn(len(sc.Handler) + 1)
+			sc.Handler = append(append(append([]prog.Act{}, sc.Handler[:p]...), prog.Act{Op: 'h'}), sc.Handler[p:]...)
+			for i := p + 1; i < len(sc.Handler); i++ {
+				if op := sc.Handler[i].Op; op == 's' || op == 'S' || op == 'u' {
+					sc.Handler = sc.Handler[:i] // nothing is sent after the half-close
+					break
+				}
+			}
+			sc.Clean = false
 		}
 	}
 	// sometimes one message of a streaming RPC is one the peer's decoder rejects
@@ -396,7 +410,7 @@ func main() {
 	runner.Main(runner.Check{
 		Property: "C06",
 		Level:    "exploration",
-		Rule:     "one case = one program: 1-2 RPCs drawn from clean shapes and five early-ending kinds (client cancel / close at a seeded position, client close after half-close without draining, handler error / early return at a seeded position) x configuration cell (split, writer buffer, cancel mode, transport capacity, chunkers) x optional soft cancel landing while the client goroutine is parked at one of 11 internal points (before the semaphore, after stream creation, between metadata/invoke/message writes, ...), optionally one message that the peer's decoder rejects; followed by a tagged unary probe. A second family cancels an RPC that is queued behind a soft-cancelled stream whose cancel packet is parked in the transport. Non-trivial: every case whose workload ended on both sides. Distinct: by configuration and program text.",
+		Rule:     "one case = one program: 1-2 RPCs drawn from clean shapes and five early-ending kinds (client cancel / close at a seeded position, client close after half-close without draining, handler error / early return at a seeded position) x configuration cell (split, writer buffer, cancel mode, transport capacity, chunkers) x optional soft cancel landing while the client goroutine is parked at one of 12 internal points (incl. inside the decode of a received message) (before the semaphore, after stream creation, between metadata/invoke/message writes, ...), optionally one message that the peer's decoder rejects; followed by a tagged unary probe. A second family cancels an RPC that is queued behind a soft-cancelled stream whose cancel packet is parked in the transport. Non-trivial: every case whose workload ended on both sides. Distinct: by configuration and program text.",
 		Assumptions: []string{
 			"programs that deadlock by construction (both sides waiting to receive) are rejected by an abstract simulation before they run",
 			"if the workload itself never ends (client call or handler still blocked at quiescence) the case is inconclusive for C06",
